@@ -404,6 +404,21 @@ def run(tier, seed):
     jobs = [(f"h{i}", seed * 100003 + i) for i in range(160 if tier == "quick" else 4000)]
     with ProcessPoolExecutor(max_workers=16) as ex:
         events = list(ex.map(run_history, jobs, chunksize=4))
+    # unbounded safety of the eager life cycle: Apalache checks that IndInv of BvhLifeInd.tla is inductive (and refutes a control)
+    from concurrent.futures import ThreadPoolExecutor
+    with ThreadPoolExecutor(max_workers=3) as tex:
+        a0, a1, a2 = list(tex.map(lambda a: tlc.apalache("c06", "BvhLifeInd", a, tag="bli_" + a[-1][-1]),
+                                  [["--cinit=CInit", "--init=Init", "--inv=IndInv", "--length=0"],
+                                   ["--cinit=CInit", "--init=IndInit", "--inv=IndInv", "--length=1"],
+                                   ["--cinit=CInit", "--init=IndInit", "--inv=NotInductive", "--length=1", "--max-error=1"]]))
+    res.coverage["apalache_inductive"] = {"init_implies_inv": a0[0], "inv_is_inductive": a1[0], "control_refuted": a2[0] == "ERROR"}
+    if a0[0] != "OK" or a1[0] != "OK":
+        if "EXITCODE: ERROR (12)" in a0[1] + a1[1]:
+            res.violation("apalache:BvhLifeInd", "ModelInvariant", "Apalache: IndInv of the eager BVH life cycle is not inductive", {"tail": (a0[1] + a1[1])[-3000:]})
+        else:
+            res.machinery("Apalache failed on BvhLifeInd:\n" + (a0[1] + a1[1])[-2000:])
+    if a2[0] == "OK":
+        res.machinery("Apalache accepted the non-inductive control invariant of BvhLifeInd (vacuous check)")
     # life-cycle explorer BvhLife.tla: model checking, simulated behaviours and witness histories replayed on real hierarchies
     lrng = random.Random(seed * 59 + 1)
     lh = life_histories(res, tier, lrng)
